@@ -450,8 +450,8 @@ class Ext:
 
 class PyFunc:
     """Analyser-supplied function value (a symbolic stand-in passed as an argument to interpreted code)."""
-    def __init__(self, name, fn):
-        self.name, self.fn = name, fn
+    def __init__(self, name, fn, grad=None):
+        self.name, self.fn, self.grad = name, fn, grad
 
     def __repr__(self):
         return f"<pyfunc {self.name}>"
@@ -518,6 +518,7 @@ class Interp:
         self.visited = set()
         self.policy = None       # None: undecidable comparisons raise; True/False: they evaluate to this value
         self.tolerant = False    # True: an assignment that cannot be interpreted binds Unknown instead of aborting
+        self.ext_special = {}    # external function name -> python callable(interp, args, kwargs)
         self.undecided_comparisons = 0
 
     # ---- module environments
@@ -650,6 +651,8 @@ class Interp:
             return v
         if isinstance(e.op, ast.Not):
             return not self.truth(v)
+        if isinstance(e.op, ast.Invert) and isinstance(v, bool):
+            return not v
         raise EvalError("unary op")
 
     def neg(self, v):
@@ -677,11 +680,15 @@ class Interp:
             raise EvalError("bool in arithmetic")
         if isinstance(v, (int, float, Fraction)):
             return Dual.of(v)
+        if isinstance(v, Ext) and v.name.split(".")[-1] in ("nan", "NaN", "NAN"):
+            return Dual(_A.atom("@nan"))
         raise EvalError(f"non-numeric operand {v!r}")
 
     def e_BinOp(self, e, env):
         a, b = self.eval(e.left, env), self.eval(e.right, env)
         op = e.op
+        if isinstance(a, bool) and isinstance(b, bool) and isinstance(op, (ast.BitOr, ast.BitAnd, ast.BitXor)):
+            return (a or b) if isinstance(op, ast.BitOr) else (a and b) if isinstance(op, ast.BitAnd) else (a != b)
         if isinstance(op, ast.Mod) and isinstance(a, str):
             return a
         if isinstance(a, str) and isinstance(b, str) and isinstance(op, ast.Add):
@@ -783,6 +790,10 @@ class Interp:
             c = rat_const(v.a)
             if c is not None:
                 return c != 0
+            if callable(self.policy):
+                sv = self.policy(v.a)
+                if sv is not None:
+                    return sv != 0
         raise EvalError(f"truth value of {v!r}")
 
     def e_Subscript(self, e, env):
@@ -1007,6 +1018,11 @@ class Interp:
     def call_ext(self, name, args, kwargs):
         last = name.split(".")[-1]
         n = self.num
+        if name in self.ext_special:
+            return self.ext_special[name](self, args, kwargs)
+        if name == "jax.value_and_grad" and isinstance(args[0], PyFunc) and getattr(args[0], "grad", None) is not None:
+            f_ = args[0]
+            return PyFunc("value_and_grad(" + f_.name + ")", lambda it, a, k, f_=f_: (f_.fn(it, a, k), f_.grad(it, a, k)))
         if name in ("builtins.print",):
             return None
         if name == "builtins.range":
@@ -1091,6 +1107,13 @@ class Interp:
             for s in shp:
                 sz *= s
             return Arr([Dual(0 if fn == "zeros" else 1) for _ in range(sz)], shp)
+        if fn == "clip" and len(args) == 3:
+            x, lo, hi = n(args[0]), n(args[1]), n(args[2])
+            if self.compare(x, ast.Lt(), lo):
+                return lo
+            if self.compare(x, ast.Gt(), hi):
+                return hi
+            return x
         if fn == "arange":
             return Arr([Dual(i) for i in range(*[self.as_int(a) for a in args])], (len(range(*[self.as_int(a) for a in args])),))
         if fn == "cumsum":
